@@ -88,7 +88,12 @@ def _print_Piecewise(
             return printer._print(cond)
 
     try:
-        expr = sympy.simplify(expr)
+        simplified = sympy.simplify(expr)
+        # Keep the simplification only if it is still a Piecewise: e.g.
+        # Piecewise((x, Eq(x, y)), (y, True)) simplifies to the plain symbol y,
+        # which has no (expr, cond) pairs to print
+        if isinstance(simplified, sympy.Piecewise):
+            expr = simplified
     except Exception:
         # Simplification is only cosmetic. sympy fails on some conditions that
         # contain unevaluated numbers (e.g. `V < -1*40.0` from a Myokit import):
